@@ -404,7 +404,7 @@ def generate():
     regdp0_names = ", ".join(f"regdp0_{a}_{b}" for a in range(NE) for b in range(NE))
     for r in range(NV):
         for c in range(NV):
-            terms = []
+            terms, used0 = [], set()
             for tau in (0, 2):
                 for sig in (0, 1, 2):
                     for i in range(3):
@@ -413,14 +413,16 @@ def generate():
                                 dot = " + ".join(f"curlT N JIT nmt {tau} {i} {d} * curlS N JIT nms {sig} {j} {d}" for d in range(3))
                                 terms.append(f"({dot}) * (mt {tau} {i} * ms {sig} {j}) * regdp0_{tau}_{sig} "
                                              + " ".join(n if n not in ("mt", "ms") else "(fun _ _ => 1)" for n in sorted(ar)))
+                                used0.add(f"regdp0_{tau}_{sig}")
             rhs = " +\n        ".join(terms) if terms else "0"
-            add(f"hyp_regular_is_curl_curl_sl_{r}_{c}", f"hyp_{r}_{c} {names}\n      = {rhs}", f", hyp_{r}_{c}, {regdp0_names}")
+            add(f"hyp_regular_is_curl_curl_sl_{r}_{c}", f"hyp_{r}_{c} {names}\n      = {rhs}",
+                f", hyp_{r}_{c}" + "".join(", " + u for u in sorted(used0)))
     # (b1m) modified Helmholtz hypersingular regular = curl·curl × V0 + ω² (n_τ·n_σ) × V1   (ω = kp 0)
     unit = " ".join(n if n not in ("mt", "ms") else "(fun _ _ => 1)" for n in sorted(ar))
     regdp1_names = ", ".join(f"regdp1_{a}_{b}" for a in range(3 * NE) for b in range(3 * NE))
     for r in range(NV):
         for c in range(NV):
-            terms = []
+            terms, used = [], []
             for tau in (0, 2):
                 for sig in (0, 1, 2):
                     for i in range(3):
@@ -430,16 +432,17 @@ def generate():
                                 nn = " + ".join(f"(N {tau} {d} * nmt {tau}) * (N {sig} {d} * nms {sig})" for d in range(3))
                                 terms.append(f"(mt {tau} {i} * ms {sig} {j}) * (({dot}) * regdp0_{tau}_{sig} {unit}"
                                              f" + kp 0 * kp 0 * ({nn}) * regdp1_{3 * tau + i}_{3 * sig + j} {unit})")
+                                used += [f"regdp0_{tau}_{sig}", f"regdp1_{3 * tau + i}_{3 * sig + j}"]
             rhs = " +\n        ".join(terms) if terms else "0"
             add(f"hyp_modified_decomposition_{r}_{c}", f"mhyp_{r}_{c} {names}\n      = {rhs}",
-                f", mhyp_{r}_{c}, {regdp0_names}, {regdp1_names}")
+                f", mhyp_{r}_{c}" + "".join(", " + u for u in sorted(set(used))))
     # (b1h) Helmholtz hypersingular regular = curl·curl × V0 − k² (n_τ·n_σ) × V1, k = kp 0 + i kp 1 (real and imaginary part)
     cdp0re = ", ".join(f"cregdp0re_{a}_{b}, cregdp0im_{a}_{b}" for a in range(NE) for b in range(NE))
     cdp1re = ", ".join(f"cregdp1re_{a}_{b}, cregdp1im_{a}_{b}" for a in range(3 * NE) for b in range(3 * NE))
     for part in ("re", "im"):
         for r in range(NV):
             for c in range(NV):
-                terms = []
+                terms, used = [], []
                 for tau in (0, 2):
                     for sig in (0, 1, 2):
                         for i in range(3):
@@ -447,6 +450,8 @@ def generate():
                                 if ELEMS[i, tau] == r and ELEMS[j, sig] == c:
                                     dot = " + ".join(f"curlT N JIT nmt {tau} {i} {d} * curlS N JIT nms {sig} {j} {d}" for d in range(3))
                                     nn = " + ".join(f"(N {tau} {d} * nmt {tau}) * (N {sig} {d} * nms {sig})" for d in range(3))
+                                    used += [f"cregdp0{part}_{tau}_{sig}", f"cregdp1re_{3 * tau + i}_{3 * sig + j}",
+                                             f"cregdp1im_{3 * tau + i}_{3 * sig + j}"]
                                     v0 = f"cregdp0{part}_{tau}_{sig} {unit}"
                                     v1re = f"cregdp1re_{3 * tau + i}_{3 * sig + j} {unit}"
                                     v1im = f"cregdp1im_{3 * tau + i}_{3 * sig + j} {unit}"
@@ -456,7 +461,7 @@ def generate():
                                     terms.append(f"(mt {tau} {i} * ms {sig} {j}) * (({dot}) * {v0} - ({nn}) * {k2v1})")
                 rhs = " +\n        ".join(terms) if terms else "0"
                 add(f"hyp_helmholtz_decomposition_{part}_{r}_{c}", f"chyp{part}_{r}_{c} {names}\n      = {rhs}",
-                    f", chyp{part}_{r}_{c}, {cdp0re}, {cdp1re}")
+                    f", chyp{part}_{r}_{c}" + "".join(", " + u for u in sorted(set(used))))
     # (b2) hypersingular singular local integral = curl·curl × single layer singular local integral (dp0 x dp0)
     for k, pr in enumerate(SING_PAIRS):
         for i in range(3):
